@@ -19,9 +19,13 @@ claim("C10", "exploration",
   "Seeded search over call histories (lengths dense around 1, 15..17, 31..34; in place / disjoint / larger dst; both directions; 16/24/32-byte keys) and over link schedules; every output compared with an independent byte-at-a-time CFB8 over crypto/aes; encrypted Conn pairs exchange packet histories in both directions with the reference-decrypted wire re-parsed by the independent frame reader.",
   "crypto/aes trusted as block cipher; callers respect the cipher.Stream aliasing contract (entirely overlapping or disjoint).",
   "DESIGN.md 5 C10")
+claim("C16", "exploration",
+  "deterministic simulation: real DialRCON (dial and request-id randomness woven to the simulator) and real server-side calls as tasks over the simulated link; reference RCON codec on the wire-tap; byzantine server and conformant foreign client",
+  "Seeded worlds: frame streams (ids over int32, payload 0..4086 incl. NUL/non-UTF-8) under segmentation/coalescing/back-pressure compared with the reference layout on the wire; declared lengths around both bounds; login with password pairs and command/response histories; byzantine server (other id, wrong type, cut mid-frame) and a conformant foreign client with per-command ids.",
+  "The reference layout in the harness is taken as the protocol. Reliable ordered stream assumed. ListenRCON/real TCP not run (the dial lands on a harness task that wraps the server end exactly like RCONListener.Accept).",
+  "DESIGN.md 5 C16")
 PENDING.update({
  "C14": "claimed in DESIGN.md; check under construction (not yet registered)",
  "C15": "claimed in DESIGN.md; check under construction (not yet registered)",
- "C16": "claimed in DESIGN.md; check under construction (not yet registered)",
  "C19": "claimed in DESIGN.md; check under construction (not yet registered)",
 })
